@@ -126,6 +126,8 @@ def run_replay(binary, prop, path, timeout=120, strict=False):
     out = p.stdout + p.stderr
     if "REPLAY-OK" in out and p.returncode == 0:
         return "ok", out
+    if "REPLAY-LOAD-ERROR" in out:
+        return "timeout", out  # unreadable replay file: inconclusive, not a violation
     if "REPLAY-FAIL" in out:
         return "fail", out
     # died without verdict: fatal crash (stack overflow) counts as a failure of the replayed case
